@@ -5,6 +5,7 @@ many enumerated assignments: `LogicOperands01` and definedness depend only on th
 enumeration is complete.  Helper lemmas for `Rooc/Props/C03.lean`.
 -/
 import Rooc.Proofs.Compose
+import Rooc.Proofs.LinBridgeStatic
 import Rooc.Proofs.RefLemmas
 set_option linter.unusedSectionVars false
 namespace Rooc
@@ -100,6 +101,21 @@ def sides (m : Model (Ext K)) : List (Exp (Ext K)) :=
 literals. -/
 def SidesOK (m : Model (Ext K)) : Prop :=
   ∀ e ∈ sides m, (∀ x ∈ vars e, x ∈ usedNames m.domain) ∧ finiteLits e = true
+
+/-- `SidesOK` is the static contract `LinP.StaticModel` of the pipeline theorems (declared used variables + finite
+literals), spelled with `Exp.vars` / `usedNames`. -/
+theorem staticModel_of_sidesOK {m : Model (Ext K)} (hs : SidesOK m) : StaticModel m := by
+  have scope : ∀ e ∈ sides m, ∀ x ∈ varsOf e, inScope m.domain x := by
+    intro e he x hx
+    rw [← Rooc.Compose.vars_eq_varsOf] at hx
+    obtain ⟨dv, hdv, hu, hn⟩ := mem_usedNames.1 ((hs e he).1 x hx)
+    exact ⟨dv, hdv, hn, hu⟩
+  have memL : ∀ c ∈ m.constraints, c.lhs ∈ sides m := fun c hc => by
+    simp only [sides, List.mem_cons, List.mem_flatMap]; exact Or.inr ⟨c, hc, by simp⟩
+  have memR : ∀ c ∈ m.constraints, c.rhs ∈ sides m := fun c hc => by
+    simp only [sides, List.mem_cons, List.mem_flatMap]; exact Or.inr ⟨c, hc, by simp⟩
+  exact ⟨scope _ (by simp [sides]), (hs _ (by simp [sides])).2,
+    fun c hc => ⟨scope _ (memL c hc), scope _ (memR c hc), (hs _ (memL c hc)).2, (hs _ (memR c hc)).2⟩⟩
 
 /-- the SEMANTIC part, at ONE assignment: every side is defined and its and/or operands are 0/1-valued. -/
 def PointOK (m : Model (Ext K)) (ρ : String → K) : Prop :=
